@@ -329,7 +329,9 @@ def run_chain(rec: Recorder, ctx: Ctx, u1, u2):
     objs = []
     sd2 = ctx.d / "stub2"
     try:
-        s = IH5MFRecord(ctx.sd / NAME, "r+")
+        st, s = guarded(lambda: IH5MFRecord(ctx.sd / NAME, "r+"))
+        if not rec.check(st == "ok", "c10:chain:stub-open-rplus", f"cannot open the stub for patching: {s}", case, FN_OPEN + FN_STUB):
+            return
         objs.append(s)
         st1 = _apply_update(s, u1)
         s.commit_patch()
@@ -340,7 +342,9 @@ def run_chain(rec: Recorder, ctx: Ctx, u1, u2):
         if not rec.check(st == "ok", "c10:chain:create-stub2-failed", f"create_stub from a stub-made manifest failed: {s2}", case, FN_STUB):
             return
         s2.close()
-        s2 = IH5MFRecord(sd2 / NAME, "r+")
+        st, s2 = guarded(lambda: IH5MFRecord(sd2 / NAME, "r+"))
+        if not rec.check(st == "ok", "c10:chain:stub2-open-rplus", f"a stub created from a stub-made manifest cannot be re-opened for patching: {s2}", case, FN_OPEN + FN_STUB):
+            return
         objs.append(s2)
         st2 = _apply_update(s2, u2)
         s2.commit_patch()
@@ -353,7 +357,9 @@ def run_chain(rec: Recorder, ctx: Ctx, u1, u2):
         cdump = _gdump(c)
         check_manifest(rec, c, "real+2-stub-patches", case, expected_exts=ctx.exts, full=False, dump=cdump[1] if cdump[0] == "ok" else False)
         c.close()
-        r = IH5MFRecord(ctx.rd / NAME, "r+")
+        st, r = guarded(lambda: IH5MFRecord(ctx.rd / NAME, "r+"))
+        if not rec.check(st == "ok", "c10:chain:real-open-rplus", f"cannot open the real record for patching: {r}", case, FN_OPEN):
+            return
         objs.append(r)
         sr1 = _apply_update(r, u1)
         r.commit_patch()
